@@ -410,14 +410,17 @@ func (d cffDict) getFontMatrix(op dictOp, isCIDKeyed bool) (res matrix.Matrix) {
 	}
 
 	for i, x := range xx {
-		xi, ok := x.(float64)
-		if !ok {
+		switch xi := x.(type) {
+		case float64:
+			res[i] = xi
+		case int32: // e.g. "0.001 0 0 0.001 0 0" with the zeros stored as integers
+			res[i] = float64(xi)
+		default:
 			if isCIDKeyed {
 				return matrix.Identity
 			}
 			return defaultFontMatrix
 		}
-		res[i] = xi
 	}
 
 	return res
